@@ -950,8 +950,14 @@ def run(run):
         ghold, gdt = lib.coq_run_shards("c03g", GUARD_IMPORTS, GUARD_DEF, gshards)
         n_mexpr = sum(len(ms) for ms in gmeta)
         inside = [gmeta[k][i] for (k, i) in ghold]
+        by_g = {}
+        for ms in gmeta:
+            for m in ms:
+                by_g.setdefault(m["grammar"], [0, 0])[0] += 1
+        for m in inside:
+            by_g[m["grammar"]][1] += 1
         run.cov["mexpr_theorem_guard"] = {"mexpr_cases": n_mexpr, "guard_holds": len(inside),
-                                          "coq_seconds": round(gdt, 1)}
+                                          "per_grammar_cases_inside": by_g, "coq_seconds": round(gdt, 1)}
         print(f"[C03] match-expression cases={n_mexpr} inside the guard of C03_eval_correct_mexpr={len(inside)}",
               flush=True)
         if n_mexpr and not inside:
